@@ -128,8 +128,63 @@ function p.ret_nil(frame) return nil end
 function p.ret_num(frame) return 42 end
 function p.pperr(frame) return frame:preprocess("{{#invoke:bad|err}}") .. "after" end
 function p.pploop(frame) return frame:preprocess("{{tloop}}") end
+@@MISUSES@@
 return p
 """
+
+# frame-API calls with arguments of the wrong type / shape, or whose work
+# fails inside the host: the Python side of the callback raises or reports an
+# error after it has already recorded itself on the expansion path.  Each is
+# available raw (cbN), caught by the module (cbNpc) and caught and followed by
+# a well-formed callback (cbNok).
+MISUSES = [
+    "frame:expandTemplate{title = 5}",
+    "frame:expandTemplate{}",
+    "frame:expandTemplate{title = 'tb', args = 5}",
+    "frame:expandTemplate{title = 'tb', args = {[{}] = 'x'}}",
+    "frame:expandTemplate{title = {}}",
+    "frame:expandTemplate{title = 'tloop'}",
+    "frame:expandTemplate{title = 'terr'}",
+    "frame:extensionTag('span', 'x', {5})",
+    "frame:extensionTag{name = 5}",
+    "frame:extensionTag()",
+    "frame:extensionTag('span', {}, 'x')",
+    "frame:preprocess(nil)",
+    "frame:preprocess({})",
+    "frame:preprocess{text = 5}",
+    "frame:preprocess('{{#invoke:bad|err}}')",
+    "frame:preprocess('{{#invoke:bad|cb1}}')",
+    "frame:callParserFunction()",
+    "frame:callParserFunction{name = 5}",
+    "frame:callParserFunction('#expr', {})",
+    "frame:callParserFunction('nosuchfn', 'x')",
+    "frame:callParserFunction('#invoke', 'bad', 'err')",
+    "frame:callParserFunction{name = '#tag', args = {5}}",
+    "frame:newChild{title = 5, args = 5}:preprocess('x')",
+    "frame:newChild{title = 'x', args = {[true] = 1}}:expandTemplate{title = 5}",
+    "frame:getParent():expandTemplate{title = {}}",
+    "frame:getArgument({})",
+    "frame:argumentPairs(5)",
+    "mw.title.new({})",
+    "mw.title.makeTitle(5, {})",
+]
+
+
+def _misuse_lua():
+    out = []
+    for i, m in enumerate(MISUSES, 1):
+        out.append(f"function p.cb{i}(frame) return tostring({m}) end")
+        out.append(f"function p.cb{i}pc(frame) local ok, e = pcall(function() "
+                   f"return {m} end); return 'caught' .. tostring(ok) end")
+        out.append(f"function p.cb{i}ok(frame) pcall(function() return {m} "
+                   f"end); return frame:expandTemplate{{title = 'tb', "
+                   f"args = {{'x'}}}} end")
+    return "\n".join(out)
+
+
+BAD = BAD.replace("@@MISUSES@@", _misuse_lua())
+MISUSE_FNS = [f"cb{i}{suf}" for i in range(1, len(MISUSES) + 1)
+              for suf in ("", "pc", "ok")]
 
 
 WORK = r"""
